@@ -6,6 +6,7 @@ CONSTANTS
   GThreads = {1, 2}
   GEx = {{}, {"a"}}
   GMax = {1, 1000000000}
+  GOps = {"prefix", "rm", "strat"}
 SPECIFICATION GSpec
 CONSTRAINT EmitBeh
 CHECK_DEADLOCK FALSE
